@@ -254,6 +254,83 @@ def what_stress_source(name, n):
             % (n, name, name))
 
 
+# ---------------------------------------------------------------------------------------------- overloaded functions
+# BLOC identifies a function by (name, arity); compiled call nodes hold the INDEX of the declaration in the table of the
+# compiling context (FunctorExpression::_id) and the index is looked up in the table of the context that RUNS the node.
+# A clone must therefore have every declaration of the original at the same index (FunctorManager::reset). The programs
+# below declare 2..4 arities of one or two names in a shuffled order, then 1..3 functions declared AFTER the overloaded
+# ones (their indices shift when an overload is lost), every body multi-statement (a print, a local, calls of
+# earlier-declared functions, a return), and a main part that calls every declaration.
+def ipar(k):
+    return "I%d" % (7 + k)
+
+
+def over_sigs(r, dist):
+    """signatures of one program in declaration order: overloads first (shuffled), then 1..3 later functions"""
+    names = r.sample(["AREA", "VOL", "FX"], r.choice([1, 1, 2]))
+    sigs = []
+    for nm in names:
+        ars = r.sample([0, 1, 2, 3], r.choice([2, 3, 3, 4]))
+        key = ",".join(str(a) for a in sorted(ars))
+        dist["arity_sets"][key] = dist["arity_sets"].get(key, 0) + 1
+        sigs += [(nm, a) for a in ars]
+    r.shuffle(sigs)
+    if r.random() < 0.5:      # contiguous per name in half of the programs, interleaved otherwise
+        sigs.sort(key=lambda x: names.index(x[0]))
+    nlater = r.randint(1, 3)
+    dist["declared_after_overloads"][str(nlater)] = dist["declared_after_overloads"].get(str(nlater), 0) + 1
+    return sigs + [("G%d" % (j + 1), r.choice([0, 1, 1, 2])) for j in range(nlater)]
+
+
+def over_bodies(r, sigs, table=()):
+    """one multi-statement function per signature. A body calls only functions that are in the table BEFORE its own entry
+    (the parser resolves a call when it reads it; no recursion through a redefinition). `table`: signatures the context
+    has already, in table order (a signature of `sigs` that is in `table` is a REDEFINITION in place)."""
+    out = []
+    table = list(table)
+    for (nm, ar) in sigs:
+        if (nm, ar) in table:
+            seen = table[:table.index((nm, ar))]
+        else:
+            seen = list(table)
+            table.append((nm, ar))
+        ps = [ipar(k) for k in range(ar)]
+        e = I(r.randint(1, 9))
+        for p_ in ps:
+            e = ("bin", "ADD", e, ("bin", "MUL", ("var", p_), I(r.randint(2, 7))))
+        body = [("print", [S("%s/%d" % (nm.lower(), ar))] + [("var", p_) for p_ in ps[:2]]), ("let", "Y9", e)]
+        for _ in range(r.choice([0, 1, 1, 2])):
+            if seen:
+                cn, ca = r.choice(seen)
+                args = [r.choice([I(r.randint(0, 5))] + [("var", p_) for p_ in ps]) for _ in range(ca)]
+                body.append(("let", "Y9", ("bin", "ADD", ("var", "Y9"), ("fcall", cn, args))))
+        if r.random() < 0.3:
+            body.append(("if", [(("bin", "GT", ("var", "Y9"), I(r.randint(5, 60))), [("let", "Y9", ("bin", "SUB", ("var", "Y9"), I(r.randint(1, 4))))])]))
+        body.append(("return", ("bin", "MOD", ("var", "Y9"), I(r.choice([97, 101, 1009])))))
+        out.append(("func", nm, ps, "i", body, []))
+    return out
+
+
+def over_main(r, sigs, ret=True, extra_errors=False):
+    """main part: calls every declared signature at least once, some in a loop; prints; optional return"""
+    body = [("let", "I1", I(0))]
+    order = list(sigs)
+    r.shuffle(order)
+    for (nm, ar) in order + [r.choice(sigs) for _ in range(r.randint(0, 2))]:
+        args = [I(r.randint(0, 6)) if r.random() < 0.7 else ("var", "I1") for _ in range(ar)]
+        body.append(("let", "I1", ("bin", "ADD", ("bin", "MOD", ("var", "I1"), I(1000)), ("fcall", nm, args))))
+        if r.random() < 0.4:
+            body.append(("print", [S("m"), ("var", "I1")]))
+    nm, ar = r.choice(sigs)
+    body.append(("for", "K1", I(1), I(r.randint(2, 4)), None, "auto",
+                 [("let", "I2", ("fcall", nm, [("var", "K1")] * ar)), ("print", [("var", "K1"), ("var", "I2")])]))
+    if extra_errors and r.random() < 0.5:
+        body.append(("let", "I2", ("bin", "DIV", I(1), ("bin", "SUB", ("var", "I1"), ("var", "I1")))))
+    if ret:
+        body.append(("return", ("var", "I1")))
+    return body
+
+
 class Scenario:
     """one thrprobe script + the matching World operations"""
 
@@ -285,6 +362,16 @@ class C14(Check):
             "thread that ends differently from the sequential run in a program with user-named `when` clauses is a violation "
             "(family stress-what: 4 threads x 3000/20000 handled user exceptions with distinct names). Thorough: same scripts "
             "under ThreadSanitizer, every report classified by its site pair; a pair on Error::what()'s buffer is a violation. "
+            "r2: programs declaring OVERLOADED functions (2..4 arities 0..3 of one or two names, shuffled) and 1..3 functions after "
+            "them, multi-statement bodies, run in 2..7 clones (star / taken concurrently / clone-of-clone chains) through the shared "
+            "executable and from a program parsed afresh in each clone; redefinition (+ new overload) in the original or in the clone "
+            "after cloning, then the old executable in the redefining context; histories with the original pending a top-level "
+            "return / bloc_break / failed / ran before or while clones call functions, bloc_reset_stop, re-runs with and without reset, "
+            "trusted+trace set before cloning, purge / free / purge+free of the original at every position after the first clone; a "
+            "signature declared twice in one program; per context ALSO the function table (names, arities, ORDER, bodies, no cached "
+            "call contexts in a never-run clone), trusted / trace / stop-pending flags are compared with the model "
+            "(World.applyL; `linked=0` = the model does not predict an executable run in a context that does not continue its "
+            "compile-time tables). Input distribution in coverage.input_distribution. "
             "distinct = (family, script, program texts).")
     trusted_base = Check.trusted_base + [
         "extract/shared.py (the listed cells are all the shared mutable cells of blocc/: regex listing of `mutable`, non-const `static`, non-const globals, plus the two heap cells shared by design; a declaration carrying `thread_local`/`__thread` is listed apart as per-thread state)",
@@ -433,7 +520,7 @@ class C14(Check):
                 None, progs=[p, p2])
             # the original is interrupted (bloc_break) while clones run: they must not notice
             add("orders", "c0.0.0/k0.1/k0.2/x1.0,x2.0,b0",
-                ["c0.0", "k0.1", "k0.2", "s1.0", "s2.0"] + self.model_schedule([1, 2]), progs=[p], meta={"orig_break": True})
+                ["c0.0", "k0.1", "k0.2", "s1.0", "s2.0", "b0"] + self.model_schedule([1, 2]), progs=[p], meta={"orig_break": True})
 
         # ---- D: deterministic witnesses of the recorded defects (sequential scripts, run in both modes)
         pf = [fdef("F", ["I7"], "i", [("print", [S("in f"), ("var", "I7")]), ("let", "Y9", ("bin", "ADD", ("var", "I7"), I(1))),
@@ -476,12 +563,243 @@ class C14(Check):
                 rounds = ["c0.0.0"] + ["k0.%d" % c for c in range(1, k + 1)] + [",".join("x%d.0" % c for c in range(1, k + 1))]
                 add("extra-" + name, "/".join(rounds), None, sources=[src],
                     meta={"k": k, "random": name == "random"})
+        # ================================================================================================ r2 families
+        # The harness rounds are written once; the model operations are DERIVED from them (`model_of_rounds`): compile /
+        # clone / purge / free / break / reset / flags map one to one, the runs of one round become `s` + a random
+        # interleaving of statement steps into which the other actions of the round are inserted at random positions.
+        dist = {"arity_sets": {}, "declared_after_overloads": {}, "over_variant": {}, "redef": {}, "hist_pre": {}, "hist_shape": {},
+                "hist_extra": {}, "hist_kill": {}, "hist_kill_position": {}, "reset_before_rerun": {}, "flags": {}}
+        self.stats["distribution"] = dist
+
+        def bump(key, val):
+            dist[key][str(val)] = dist[key].get(str(val), 0) + 1
+
+        def model_of_rounds(rounds):
+            exe2prog = {}
+            mops = []
+            for acts in rounds:
+                runs, others = [], []
+                for a in acts:
+                    k = a[0]
+                    f = a[1:].split(".")
+                    if k == "c":
+                        exe2prog[f[2]] = f[1]
+                        others.append("c%s.%s" % (f[0], f[1]))
+                    elif k == "x":
+                        runs.append((int(f[0]), int(exe2prog[f[1]])))
+                    else:
+                        others.append(a)
+                ids = [c for c, _ in runs]
+                mid = [("t%d" % r.choice(ids)) for _ in range(r.randint(0, 30))] if ids else []
+                for o in others:
+                    mid.insert(r.randint(0, len(mid)), o)
+                tail = ["r%d" % c for c in ids]
+                r.shuffle(tail)
+                mops += ["s%d.%d" % (c, pid) for c, pid in runs] + mid + tail
+            return mops
+
+        def sanitize(rounds, table_ctx=None):
+            """drop / re-parent what the history no longer allows after the original was purged or freed: nothing is done to a
+            freed context; an executable compiled before a purge is not run in the purged context; a clone is taken from a
+            context that still has the compiled table"""
+            alive, purged = {0}, set()
+            res = []
+            for acts in rounds:
+                na = []
+                for a in acts:
+                    k = a[0]
+                    f = [int(x) for x in a[1:].split(".")]
+                    c = f[0]
+                    if k == "k":
+                        src = c
+                        if src not in alive or src in purged:
+                            cands = sorted(x for x in alive if x not in purged and x != f[1])
+                            if not cands:
+                                continue
+                            src = cands[0]
+                        alive.add(f[1])
+                        na.append("k%d.%d" % (src, f[1]))
+                        continue
+                    if c not in alive:
+                        continue
+                    if k == "x" and c in purged:
+                        continue
+                    if k == "f":
+                        alive.discard(c)
+                    if k == "p":
+                        purged.add(c)
+                    na.append(a)
+                if na:
+                    res.append(na)
+            return res
+
+        def addr(family, rounds, progs, meta=None):
+            script = "/".join(",".join(acts) for acts in rounds)
+            m = dict(meta or {})
+            m["lastrun"] = True
+            add(family, script, model_of_rounds(rounds), progs=progs, meta=m)
+
+        # ---- G (task 3a): OVERLOADED functions + functions declared after them, called in clones through the shared
+        # executable AND from a program parsed afresh in the clone; the clone's table (order, completeness) is compared too
+        ng = 150 if quick else 900
+        for i in range(ng):
+            k = 2 + i % 6
+            sigs = over_sigs(r, dist)
+            p0 = over_bodies(r, sigs) + over_main(r, sigs, ret=(i % 2 == 0), extra_errors=True)
+            new = []
+            if r.random() < 0.6:
+                used = {a for n_, a in sigs if n_ == sigs[0][0]}
+                free = [a for a in (0, 1, 2, 3) if a not in used]
+                new.append((sigs[0][0], r.choice(free)) if free and r.random() < 0.6 else ("H1", r.choice([0, 1, 2])))
+            p1 = over_bodies(r, new, table=sigs) + over_main(r, sigs + new, ret=(i % 3 == 0))
+            clones = list(range(1, k + 1))
+            rounds = [["c0.0.0"]]
+            if i % 3 == 0:
+                rounds.append(["x0.0"])
+            variant = ("star", "concurrent-clone", "chain")[i % 3]
+            bump("over_variant", variant)
+            if variant == "star":
+                rounds += [["k0.%d" % c] for c in clones]
+            elif variant == "concurrent-clone":
+                rounds.append(["k0.%d" % c for c in clones])
+            else:
+                rounds += [["k%d.%d" % (c - 1, c)] for c in clones]
+            if i % 3 == 0:
+                rounds.append(["k0.15"])      # a clone of the original that RAN (cached call contexts there), never run itself
+            rounds.append(["x%d.0" % c for c in clones] + (["x0.0"] if i % 4 == 1 else []))
+            if i % 2 == 0:
+                rounds += [["c%d.1.%d" % (c, c)] for c in clones]
+            else:
+                rounds.append(["c%d.1.%d" % (c, c) for c in clones])
+            resets = [c for c in clones if r.random() < 0.6]
+            bump("reset_before_rerun", "%d/%d" % (len(resets), k))
+            if resets:
+                rounds.append(["u%d" % c for c in resets])
+            rounds.append(["x%d.%d" % (c, c) for c in clones])
+            rounds.append(["u%d" % c for c in clones])
+            rounds.append(["x%d.0" % c for c in clones])
+            addr("over", rounds, [p0, p1], meta={"k": k})
+
+        # ---- H (task 3d): a function is REDEFINED (and an overload added) in the original after the clone was taken — the
+        # clone keeps the old one — and vice versa; the redefining context then runs the OLD shared executable (new bodies)
+        nh = 60 if quick else 400
+        for i in range(nh):
+            sigs = over_sigs(r, dist)
+            p0 = over_bodies(r, sigs) + over_main(r, sigs, ret=False)
+            redef = sorted(r.sample(sigs, r.randint(1, min(3, len(sigs)))), key=sigs.index)
+            new = [("H1", r.choice([0, 1, 2]))] if r.random() < 0.5 else []
+            p2 = over_bodies(r, redef + new, table=sigs) + over_main(r, sigs + new, ret=False)
+            who = (0, 1)[i % 2]
+            bump("redef", "%s redefines %d, adds %d" % ("original" if who == 0 else "clone", len(redef), len(new)))
+            rounds = [["c0.0.0"], ["k0.1"], ["k0.2"]] + ([["k1.3"]] if i % 4 >= 2 else [])
+            others = [c for c in (0, 1, 2, 3) if c != who and (c != 3 or i % 4 >= 2)]
+            rounds.append(["c%d.1.9" % who])
+            rounds.append(["x%d.9" % who] + ["x%d.0" % c for c in others])
+            rounds.append(["x%d.0" % who] + (["k%d.4" % others[0]] if i % 3 == 0 else []))
+            if i % 3 == 0:
+                rounds.append(["x4.0"])
+            addr("redef", rounds, [p0, p2], meta={"who": who})
+
+        # ---- J (task 3b, 3c): histories. The original has a pending top-level `return` / received bloc_break / failed / ran,
+        # BEFORE the clones are taken or WHILE they call multi-statement functions; clone-of-clone chains; then the original
+        # runs (returns at once while the condition is pending), is reset, runs again; the clones run again, some without a
+        # reset. Purge / free / purge+free of the original is inserted in EVERY position after the first clone.
+        pr = [("print", [S("pr")]), ("return", I(7)), ("print", [S("never")])]
+        pe = [("let", "I1", I(3)), ("raise", "BOOM"), ("print", [S("never")])]
+        nj = 14 if quick else 80
+        for i in range(nj):
+            sigs = over_sigs(r, dist)
+            p0 = over_bodies(r, sigs) + over_main(r, sigs, ret=(i % 2 == 0))
+            k = r.randint(2, 5)
+            pre = ("idle", "returned", "errored", "broken", "ran")[i % 5]
+            shape = ("star", "chain", "mixed")[(i // 5) % 3]
+            # what happens to the original WHILE the clones call their functions: nothing, bloc_break, bloc_reset_stop, or it
+            # executes a top-level `return` itself (program 1) on its own thread
+            extra = r.choice(["none", "b0", "u0", "x0.1", "x0.1"])
+            base = [["c0.0.0"], ["c0.1.1"], ["c0.2.2"]]
+            base += {"idle": [], "returned": [["x0.1"]], "errored": [["x0.2"]], "broken": [["b0"]], "ran": [["x0.0"]]}[pre]
+            first_clone = len(base)
+            for c in range(1, k + 1):
+                parent = 0 if shape == "star" else (c - 1 if shape == "chain" else r.randint(0, c - 1))
+                base.append(["k%d.%d" % (parent, c)])
+            clones = list(range(1, k + 1))
+            base.append(["x%d.0" % c for c in clones] + ([extra] if extra != "none" else []))
+            base += [["x0.0"], ["u0"], ["x0.0"]]
+            resets = [c for c in clones if r.random() < 0.5]
+            if resets:
+                base.append(["u%d" % c for c in resets])
+            base.append(["x%d.0" % c for c in clones])
+            # flags: trusted is copied by clone, trace is not (a traced context prints every statement: the clone's output must not)
+            if i % 2 == 1:
+                base.insert(first_clone, ["g0.1", ] )
+                base.insert(first_clone + 1, ["v0.1"])
+                base.insert(first_clone + 2 + k, ["v0.0"])
+                bump("flags", "trusted+trace set before cloning")
+            else:
+                bump("flags", "none")
+            addr("hist", sanitize(base), [p0, pr, pe], meta={"k": k})
+            bump("hist_pre", pre)
+            bump("hist_shape", shape)
+            bump("hist_extra", extra)
+            fc = next(j for j, acts in enumerate(base) if acts[0][0] == "k")
+            positions = list(range(fc + 1, len(base) + 1))
+            if quick:
+                positions = positions if i % 2 == 0 else r.sample(positions, min(4, len(positions)))
+            for pos in positions:
+                kill = (["p0"], ["f0"], ["p0"], ["f0"])[(pos + i) % 4]
+                rounds = [list(a) for a in base]
+                joined = pos < len(rounds) and all(a[0] in "x" and not a.startswith("x0") for a in rounds[pos]) and r.random() < 0.5
+                if joined:
+                    rounds[pos] = rounds[pos] + kill
+                else:
+                    rounds.insert(pos, kill)
+                if kill == ["p0"] and r.random() < 0.5:
+                    rounds.insert(pos + 1, ["f0"])
+                    bump("hist_kill", "purge+free")
+                else:
+                    bump("hist_kill", {"p0": "purge", "f0": "free"}[kill[0]])
+                bump("hist_kill_position", "%d of %d%s" % (pos - fc, len(base) - fc, " (while clones run)" if joined else ""))
+                addr("hist-kill", sanitize(rounds), [p0, pr, pe], meta={"k": k, "orig_freed_first": True})
+
+        # ---- R: one program declares the SAME signature twice with calls in between (the first body is in force until the
+        # second declaration is EXECUTED — FUNCTIONStatement::doit — although the compiled table already holds the second):
+        # original and clones through the shared executable, twice (the second run starts from the re-installed first body)
+        for i in range(6 if quick else 30):
+            ar = i % 3
+            a, b = r.randint(1, 50), r.randint(51, 99)
+            f1 = ("func", "FD", [ipar(j) for j in range(ar)], "i", [("print", [S("first")]), ("return", I(a))], [])
+            f2 = ("func", "FD", [ipar(j) for j in range(ar)], "i", [("print", [S("second")]), ("return", I(b))], [])
+            call = ("fcall", "FD", [I(1)] * ar)
+            prog = [f1, ("let", "I1", call), ("print", [("var", "I1")]), f2, ("let", "I2", call), ("print", [("var", "I2")])]
+            k = 2 + i % 3
+            clones = list(range(1, k + 1))
+            rounds = [["c0.0.0"]] + [["k0.%d" % c] for c in clones] + [["x%d.0" % c for c in clones] + ["x0.0"]] + [["x%d.0" % c for c in clones]]
+            addr("redecl", rounds, [prog], meta={"k": k})
+
+        # ---- K: an executable run in a context whose table does NOT continue the table it was compiled against (the original
+        # and the clone each declared another function after the clone was taken: same index, different functions). The model
+        # says `linked=0` and predicts nothing; recorded is what the code does (it calls the function AT THE INDEX).
+        for i in range(2 if quick else 6):
+            sigs = [("AREA", 0), ("AREA", 1)]
+            p0 = over_bodies(r, sigs) + [("let", "I1", ("fcall", "AREA", [I(2)]))]
+            pg = over_bodies(r, [("GO", 1)], table=sigs) + [("let", "I2", ("fcall", "GO", [I(3)])), ("print", [("var", "I2")])]
+            ph = over_bodies(r, [("HC", 1)], table=sigs) + [("let", "I3", ("fcall", "HC", [I(3)]))]
+            addr("unlinked", [["c0.0.0"], ["k0.1"], ["c0.1.1"], ["c1.2.2"], ["x1.1"]], [p0, pg, ph], meta={"unlinked": True})
+
         self.stats["scenarios"] = len(out)
         fam = {}
         for s in out:
             fam[s.family] = fam.get(s.family, 0) + 1
         self.stats["families"] = fam
         return out
+
+    def write_evidence(self, extra=None):
+        e = dict(extra or {})
+        e["input_distribution"] = self.stats.get("distribution", {})
+        e["families"] = self.stats.get("families", {})
+        e["programs_satisfying_wfDecls"] = {"program 0 (fresh context) [satisfying, all]": self.stats.get("wf_program0", {}),
+                                            "all programs, relative to an empty table": self.stats.get("wf_programs", {})}
+        Check.write_evidence(self, e)
 
     # ------------------------------------------------------------------ running
     def case_timeout(self):
@@ -524,7 +842,7 @@ class C14(Check):
     @staticmethod
     def parse_answer(ans):
         """thrprobe answer -> dict(parse={x: res}, runs={ctx: [fields]}, ctx={i: (outhex, dump)}, odd=[...])"""
-        d = {"parse": {}, "runs": {}, "ctx": {}, "odd": []}
+        d = {"parse": {}, "runs": {}, "ctx": {}, "odd": [], "flags": {}}
         if ans is None:
             return None
         if ans.startswith("crash ") or ans.endswith("diverges") or "|" in ans:
@@ -543,7 +861,18 @@ class C14(Check):
                 continue
             m = re.match(r"^C(\d+)=([0-9a-f]*)~(.*)$", tok)
             if m:
-                d["ctx"][int(m.group(1))] = (m.group(2), parse_dump(m.group(3).replace("+", " ")))
+                raw = m.group(3).replace("+", " ")
+                dump = parse_dump(raw)
+                if dump is not None:
+                    fm = re.search(r" fn=(\S*)$", raw)
+                    # function table IN TABLE ORDER: (NAME, arity, has body, cached call contexts)
+                    dump["fn"] = [(bytes.fromhex(e.split("/")[0]).decode("latin-1"), int(e.split("/")[1]), e.split("/")[2], int(e.split("/")[3]))
+                                  for e in fm.group(1).split(",") if e] if fm else None
+                d["ctx"][int(m.group(1))] = (m.group(2), dump)
+                continue
+            m = re.match(r"^F(\d+)=([01])([01])$", tok)
+            if m:
+                d["flags"][int(m.group(1))] = (m.group(2), m.group(3))
                 continue
             d["odd"].append(tok)
         return d
@@ -602,8 +931,33 @@ class C14(Check):
         mraw = model.get(sc.cid)
         if not mraw or not mraw.startswith("model="):
             return self.violation("model gave no answer (%s)" % (mraw or "")[:80], sc, seq_raw, model=mraw)
-        mm = re.match(r"^model=(\S*) err=(\S+)$", mraw)
+        mm = re.match(r"^model=(\S*) err=(\S+) linked=([01]) wf=([01]*)$", mraw)
+        if not mm:
+            return self.violation("unreadable model answer", sc, seq_raw, model=mraw)
         mctx = mm.group(1).split("#")
+        # the checkable hypothesis of BlocV.C14.world_run_eq_runProgram_wf, evaluated by the driver for every program relative to
+        # an EMPTY table: program 0 (compiled in the fresh original) satisfies it in every family except `redecl` (one signature
+        # declared twice on purpose); later programs are compiled into a table that has functions already (they call them / redefine
+        # them), for those the flag is only counted (general form: BlocV.C14.reinstall_stable_of_wf)
+        wfd = self.stats.setdefault("wf_programs", {}).setdefault(sc.family, [0, 0])
+        wfd[0] += mm.group(4).count("1")
+        wfd[1] += len(mm.group(4))
+        wf0 = self.stats.setdefault("wf_program0", {}).setdefault(sc.family, [0, 0])
+        wf0[0] += mm.group(4)[:1].count("1")
+        wf0[1] += 1
+        if mm.group(4)[:1] == "0" and sc.family != "redecl":
+            return self.violation("the first program of a generated scenario is outside World.wfDecls (hypothesis of world_run_eq_runProgram_wf): %s" % mm.group(4), sc, seq_raw, model=mraw)
+        if mm.group(4)[:1] == "1" and sc.family == "redecl":
+            return self.violation("World.wfDecls accepts a program that declares a signature twice", sc, seq_raw, model=mraw)
+        if mm.group(3) == "0":
+            # an executable was run in a context whose function/symbol table does not continue the table it was compiled
+            # against: the code calls whatever is AT THE INDEX; the by-name model predicts nothing (World.lean, `linked`)
+            tally("model:unlinked-run" + ("" if sc.meta.get("unlinked") else " (NOT a deliberate one)"))
+            if not sc.meta.get("unlinked"):
+                return self.violation("a generated history runs an executable in a context it is not linked to (generator defect)", sc, seq_raw, model=mraw)
+            return
+        if sc.meta.get("unlinked"):
+            return self.violation("the model calls a deliberately unlinked run linked", sc, seq_raw, model=mraw)
         if any(re.match(r"^[01]~(oof|hazard|unmodelled)", c) for c in mctx):
             tally("model:" + next(re.match(r"^[01]~(oof|hazard|unmodelled)", c).group(1) for c in mctx if re.match(r"^[01]~(oof|hazard|unmodelled)", c)))
             return
@@ -615,7 +969,7 @@ class C14(Check):
                 continue
             if not live:
                 return self.violation("context %d exists in the model, not in the implementation" % i, sc, seq_raw, model=mraw)
-            running, res, mout, mvars = mc.split("~", 3)
+            running, res, mout, mvars, mflags, mfns = mc.split("~")
             out, dump = seq["ctx"][i]
             if out != mout:
                 return self.violation("context %d printed %r, the model gives %r" % (i, bytes.fromhex(out).decode("latin-1")[:200], bytes.fromhex(mout).decode("latin-1")[:200]), sc, seq_raw, model=mraw)
@@ -639,8 +993,39 @@ class C14(Check):
             for name, (ty, flags, val) in dump["syms"].items():
                 if not val.endswith("/l"):
                     return self.violation("context %d: variable %s lost the LVALUE flag (%s)" % (i, name, val), sc, seq_raw, model=mraw)
-            # result of the LAST run of the context (when it ran exactly once the harness has exactly one record)
+            # the function table: every declaration, in table order (a clone that lost an overload, or holds the entries in
+            # another order, runs shared executables against shifted indices)
+            if dump.get("fn") is None:
+                return self.violation("context %d: no function table in the dump" % i, sc, seq_raw, model=mraw)
+            ifn = ["%s/%d" % (n_, a_) for n_, a_, _, _ in dump["fn"]]
+            mfn = [x for x in mfns.split(",") if x]
+            if ifn != mfn:
+                return self.violation("context %d: function table %s, the model gives %s" % (i, ifn, mfn), sc, seq_raw, model=mraw)
+            if any(b_ != "1" for _, _, b_, _ in dump["fn"]):
+                return self.violation("context %d: a declaration without body: %s" % (i, dump["fn"]), sc, seq_raw, model=mraw)
+            # `reset` re-creates the entries WITHOUT the cache of call contexts: a context that never ran anything has none
+            if res == "none" and not seq["runs"].get(i) and any(c_ != 0 for _, _, _, c_ in dump["fn"]):
+                return self.violation("context %d never ran but holds cached call contexts: %s" % (i, dump["fn"]), sc, seq_raw, model=mraw)
+            if res == "none" and not seq["runs"].get(i) and dump["fn"]:
+                tally("never-run context with functions: no cached call context")
+            # no symbol is left locked between runs (forall restores the flag also on errors)
+            for name, (ty, flags, val) in dump["syms"].items():
+                if "l1" in flags:
+                    return self.violation("context %d: symbol %s left locked" % (i, name), sc, seq_raw, model=mraw)
+            # flags: trusted (copied by clone), trace (not copied), stop condition (never inherited; 4 = return/break pending)
+            fl = seq["flags"].get(i)
+            if fl is None:
+                return self.violation("context %d: no flags in the answer" % i, sc, seq_raw, model=mraw)
+            iflags = fl[0] + fl[1] + ("1" if dump["cond"] & 4 else "0")
+            if iflags != mflags:
+                return self.violation("context %d: trusted/trace/stop-pending %s, the model gives %s" % (i, iflags, mflags), sc, seq_raw, model=mraw)
+            if dump["cond"] & ~4:
+                return self.violation("context %d: break/continue/parsing condition left set (%d)" % (i, dump["cond"]), sc, seq_raw, model=mraw)
+            # result of the LAST run of the context (when it ran exactly once the harness has exactly one record; the r2
+            # families keep one run per context and round, so the last record is the last run)
             recs = seq["runs"].get(i, [])
+            if sc.meta.get("lastrun") and recs:
+                recs = recs[-1:]
             if len(recs) == 1 and not sc.meta.get("reruns"):
                 ok, no, msg, ret = recs[0]
                 if res == "none":
@@ -684,6 +1069,10 @@ class C14(Check):
                 diffs.append(("ctx", "context %d alive in one run only" % c))
                 continue
             (oa, da), (ob, db) = a["ctx"][c], b["ctx"][c]
+            if a["flags"].get(c) != b["flags"].get(c):
+                diffs.append(("flags", "context %d: trusted/trace %s (sequential) vs %s (threads)" % (c, a["flags"].get(c), b["flags"].get(c))))
+            if da is not None and db is not None and ([x[:3] for x in da.get("fn") or []] != [x[:3] for x in db.get("fn") or []] or da["cond"] != db["cond"]):
+                diffs.append(("fn", "context %d: function table / stop condition %s cond=%d (sequential) vs %s cond=%d (threads)" % (c, da.get("fn"), da["cond"], db.get("fn"), db["cond"])))
             if oa != ob:
                 diffs.append(("out", "context %d printed %r (sequential) vs %r (threads)" % (c, bytes.fromhex(oa).decode("latin-1")[:120], bytes.fromhex(ob).decode("latin-1")[:120])))
             if da is None or db is None:
